@@ -1,6 +1,27 @@
 (* Proofs for property C13 (model: Attrs/Model.v). *)
 From DJC Require Import Lib.Base Attrs.Model.
+From DJC Require Gen.C13.
 Local Open Scope N_scope.
+
+(* ================================================================================================ *)
+(* anchors: the constants the model was written for are the ones the source (and Django) has NOW     *)
+(* (Gen/C13.v is regenerated from the tree under test on every run; an edit there breaks these)      *)
+(* ================================================================================================ *)
+Example wrap_js_anchor :
+  (Gen.C13.js_needle, Gen.C13.js_lowered, Gen.C13.js_open, Gen.C13.js_close) = (needle_js, true, open_js, close_js).
+Proof. reflexivity. Qed.
+Example wrap_css_anchor :
+  (Gen.C13.css_needle, Gen.C13.css_lowered, Gen.C13.css_open, Gen.C13.css_close) = (needle_css, true, open_css, close_css).
+Proof. reflexivity. Qed.
+(* format_html('{}="{}"', key, value), " ".join(...), result[key] += " " + value *)
+Example attr_format_anchor :
+  (Gen.C13.attr_format, Gen.C13.attr_sep, Gen.C13.append_sep) = ([123;125;61;34;123;125;34], [32], [32]).
+Proof. reflexivity. Qed.
+(* Django's escape changes exactly the five characters of escape1, in the same way *)
+Example escape_anchor :
+  map fst Gen.C13.escape_table = [34; 38; 39; 60; 62] /\
+  forallb (fun p => str_eqb (escape1 (fst p)) (snd p)) Gen.C13.escape_table = true.
+Proof. split; reflexivity. Qed.
 
 (* ================================================================================================ *)
 (* escape / decode                                                                                  *)
